@@ -316,7 +316,7 @@ static void gen_program(void) {
 			qop *y = &ops[n]; memset(y, 0, sizeof *y);
 			y->idx = next_op_idx++; y->q = i; y->wait_item = -1; y->item = -1;
 			if (k == npre) { y->kind = OP_RETARGET; n++; continue; }
-			if (k < npre || k <= npre + npost) { y->kind = g_chance(3, 4) ? OP_ASYNC : OP_BARRIER_ASYNC; y->body = k < npre ? B_YIELD : (g_chance(1, 2) ? B_YIELD : B_EMPTY); y->body_arg = g_range(1, 4); }
+			if (k < npre || k <= npre + npost) { y->kind = g_chance(3, 4) ? OP_ASYNC : OP_BARRIER_ASYNC; y->body = k < npre ? B_YIELD : (g_chance(1, 2) ? B_SLEEP : g_chance(1, 2) ? B_YIELD : B_EMPTY); y->body_arg = y->body == B_SLEEP ? g_range(20, 300) : g_range(1, 4); }   // (a long body: if it runs outside its hierarchy, something of that hierarchy will start meanwhile)
 			else { static const int sk[] = { OP_SYNC, OP_BARRIER_SYNC, OP_AAW, OP_BARRIER_AAW }; y->kind = sk[g_n(4)]; y->body = g_chance(1, 2) ? B_YIELD : B_EMPTY; y->body_arg = 1; }
 			y->form = (int)g_n(2);
 			y->item = new_item(y, c, -1, -1);
